@@ -70,11 +70,13 @@ void AttributesTools::getAttributesMap(
     string arg = argv2[i];
     if (arg == "")
       continue; // Skipping void line.
-    while (arg[arg.size() - 1] == '\\')
+    while (arg.size() > 0 && arg[arg.size() - 1] == '\\')
     {
       // Splitted line
       i++;
-      arg = arg.substr(0, arg.length() - 1) + argv2[i];
+      arg = arg.substr(0, arg.length() - 1);
+      if (i < argv2.size())
+        arg += argv2[i];
     }
     // Parsing:
     string::size_type limit = arg.find(delimiter, 0);
